@@ -94,6 +94,9 @@ func runStores(cfg Config) {
 			r.Observe(ctx, &p)
 		}
 		childObserve(r, folder, "cobs", p.Stores)
+		if cfg.Audit {
+			childAudit(r, folder, p.Stores)
+		}
 		tf.Write(fmt.Sprintf("s%d", i), r.Rec.Take(), map[string]any{"program": p, "left": env.ListFiles()})
 		if os.Getenv("VERIF_KEEP_DATA") == "" {
 			os.RemoveAll(folder)
